@@ -18,7 +18,14 @@
 //!  * `pause-late:T` read() inside the window, first query after the commit finished
 //! each with a cold cache (fresh boot) and a warm cache (a full read before).
 //!
-//! Oracle (property text only): what a read transaction observes equals, component by component, what
+//! Writers: besides single configuration changes, one writer sets every reload-flagged thing at once
+//! (system_config badlist, access control profile, OAuth2 client + key object, domain display name) and
+//! six pair writers set exactly two of them — `reload()` at the start of commit dispatches per flag.
+//!
+//! Oracle 1 (property text only): inside one read transaction that does not overlap the commit, every
+//! loaded configuration observable belongs to the same committed state as the stored entries the
+//! transaction reads (`incoherent`).
+//! Oracle 2 (property text only): what a read transaction observes equals, component by component, what
 //! a quiescent reader observed before the writer (`V_old`) — all of it — or what a quiescent reader
 //! observes after it (`V_new`) — all of it; and the second run of the queries in the same read
 //! transaction returns what the first run returned.
@@ -86,6 +93,8 @@ enum Op {
     OAuth2,
     OAuth2Del,
     Domain(u64),
+    /// append a password to the badlist of the system_config entry (reload flag SYSTEM_CONFIG)
+    Badlist(u64),
     BadCreate,
     /// raise the domain level from the previous to the target level (schema, ACPs, entries migrate)
     Raise,
@@ -102,6 +111,7 @@ impl Op {
             Op::OAuth2 => "oauth2".into(),
             Op::OAuth2Del => "oauth2del".into(),
             Op::Domain(n) => format!("domain:{n}"),
+            Op::Badlist(n) => format!("badlist:{n}"),
             Op::BadCreate => "badcreate".into(),
             Op::Raise => "raise".into(),
         }
@@ -120,6 +130,7 @@ impl Op {
             "oauth2" => Op::OAuth2,
             "oauth2del" => Op::OAuth2Del,
             "domain" => Op::Domain(n),
+            "badlist" => Op::Badlist(n),
             "badcreate" => Op::BadCreate,
             "raise" => Op::Raise,
             o => panic!("unknown op {o}"),
@@ -195,6 +206,7 @@ fn apply(w: &mut IdmServerProxyWriteTransaction<'_>, op: &Op) -> Result<(), Stri
         Op::OAuth2 => qs.internal_create(vec![client("vp_client", U_CLIENT)]),
         Op::OAuth2Del => qs.internal_delete(&Filter::new(f_eq(Attribute::Uuid, PartialValue::Uuid(U_BASECLIENT)))),
         Op::Domain(n) => qs.internal_modify_uuid(UUID_DOMAIN_INFO, &ModifyList::new_purge_and_set(Attribute::DomainDisplayName, Value::new_utf8s(&format!("VP{n}")))),
+        Op::Badlist(n) => qs.internal_modify_uuid(UUID_SYSTEM_CONFIG, &ModifyList::new_append(Attribute::BadlistPassword, Value::new_iutf8(&format!("vp-bad-password-{n}")))),
         Op::Raise => qs.domain_raise(DOMAIN_TGT_LEVEL),
         Op::BadCreate => {
             // a group without a name: refused by schema validation
@@ -410,8 +422,110 @@ fn queries(r: &mut IdmServerProxyReadTransaction<'_>) -> Obs {
         o.insert("key".into(), keys.join(" "));
         let (ts, su) = kanidmd_lib::verif_hooks::c04::read_trim_cid(&r.qs_read);
         o.insert("cid".into(), format!("{}.{:09}@{su}", ts.as_secs(), ts.subsec_nanos()));
+        // the loaded system configuration (password badlist, denied names)
+        let mut bl: Vec<String> = r.qs_read.pw_badlist().iter().cloned().collect();
+        bl.sort();
+        let mut dn: Vec<String> = r.qs_read.denied_names().iter().cloned().collect();
+        dn.sort();
+        o.insert("badlist".into(), format!("badlist={} denied={}", bl.join("|"), dn.join("|")));
+        // the stored entries those loaded settings are derived from, read in the SAME transaction
+        let attr_of = |e: &kanidmd_lib::entry::Entry<kanidmd_lib::entry::EntrySealed, kanidmd_lib::entry::EntryCommitted>, a: Attribute| -> String {
+            let mut v: Vec<String> = e.get_ava_set(a).map(|vs| vs.to_proto_string_clone_iter().collect()).unwrap_or_default();
+            v.sort();
+            v.join("|")
+        };
+        let sd = match r.qs_read.internal_search_uuid(UUID_DOMAIN_INFO) {
+            Ok(e) => format!("display={}", attr_of(&e, Attribute::DomainDisplayName)),
+            Err(e) => format!("{e:?}"),
+        };
+        o.insert("s_domain".into(), sd);
+        let ss = match r.qs_read.internal_search_uuid(UUID_SYSTEM_CONFIG) {
+            Ok(e) => format!("badlist={} denied={}", attr_of(&e, Attribute::BadlistPassword), attr_of(&e, Attribute::DeniedName)),
+            Err(e) => format!("{e:?}"),
+        };
+        o.insert("s_sysconfig".into(), ss);
+        o.insert("s_acp".into(), format!("vp_acp:{}", r.qs_read.internal_search_uuid(U_ACP).is_ok()));
+        // one observable per entry: under the known deferred-snapshot mix one entry may come from the cache
+        // snapshot and the other from the database snapshot
+        o.insert("s_client_base".into(), format!("vp_base:{}", r.qs_read.internal_search_uuid(U_BASECLIENT).is_ok()));
+        o.insert("s_client_new".into(), format!("vp_client:{}", r.qs_read.internal_search_uuid(U_CLIENT).is_ok()));
     }
     o
+}
+
+/// Independent oracle, from the statement: inside ONE read transaction every loaded (in-memory)
+/// configuration observable must belong to the same committed state as the stored entries the
+/// transaction reads — the domain display name is the one of the stored domain entry, the loaded
+/// badlist / denied names are the ones of the stored system_config entry, the access decision is the
+/// one the stored profiles give, an OAuth2 client and its key object are loaded iff its entry is
+/// stored, and the transaction's cid is not older than the newest stored change.
+/// Returns the list of disagreements (empty = one state).
+fn incoherent(o: &Obs) -> Vec<String> {
+    let g = |k: &str| o.get(k).cloned().unwrap_or_default();
+    let mut bad = vec![];
+    // domain display name
+    let want = match g("s_domain").strip_prefix("display=") {
+        Some("") => "Kanidm example.com".to_string(),
+        Some(d) => d.to_string(),
+        None => "?".into(),
+    };
+    if g("domain") != want {
+        bad.push(format!("loaded domain display name `{}`, stored domain entry has `{}`", g("domain"), g("s_domain")));
+    }
+    // system config
+    if g("badlist") != g("s_sysconfig") {
+        let l: BTreeSet<String> = g("badlist").split(['|', ' ', '=']).map(|x| x.to_string()).collect();
+        let st: BTreeSet<String> = g("s_sysconfig").split(['|', ' ', '=']).map(|x| x.to_string()).collect();
+        bad.push(format!("loaded badlist/denied names differ from the stored system_config entry: only loaded {:?}, only stored {:?}", l.difference(&st).take(4).collect::<Vec<_>>(), st.difference(&l).take(4).collect::<Vec<_>>()));
+    }
+    // access controls: vp_acp (and nothing else in this fixture) lets the person read the target's description
+    let grants = g("acp").split(':').nth(1).map(|a| a.split(',').any(|x| x == "description")).unwrap_or(false);
+    let stored_acp = g("s_acp") == "vp_acp:true";
+    if grants != stored_acp {
+        bad.push(format!("access decision `{}` with stored profile {}", g("acp"), g("s_acp")));
+    }
+    // OAuth2 clients and key objects.  The client configuration is loaded iff the client entry is live.
+    // A key object belongs to an entry that is stored at all: a deleted client sits in the recycle bin of
+    // the SAME committed state with its key_object class, and `reload_key_material` only ever adds or
+    // replaces objects, so its object stays loaded (found by this oracle on the unchanged tree with the
+    // writer `oauth2del`; not a mix of two committed states, hence not demanded): live ⇒ loaded ⇒ stored.
+    for (c, u, sk) in [("vp_base", U_BASECLIENT, "s_client_base"), ("vp_client", U_CLIENT, "s_client_new")] {
+        let live = g(sk) == format!("{c}:true");
+        let loaded = g("oauth2").split(' ').any(|x| x.starts_with(&format!("{c}:{{")));
+        let key = g("key").contains(&format!("{}:true", c.trim_start_matches("vp_")));
+        let stored_any = g("entries").lines().any(|l| l.starts_with(&u.to_string()) && l.contains("key_object"));
+        if live != loaded || (live && !key) || (key && !stored_any) {
+            bad.push(format!("client {c}: entry live {live} / stored incl. recycle bin {stored_any}, OAuth2 configuration loaded {loaded}, key object loaded {key}"));
+        }
+    }
+    // the transaction's cid (trim cid + changelog max age) is not older than the newest stored change
+    if let (Some(cid), Some(newest)) = (g("cid").split('.').next().and_then(|x| x.parse::<u64>().ok()), newest_change(&g("entries"))) {
+        if cid + CHANGELOG_AGE < newest {
+            bad.push(format!("transaction cid {} older than the newest stored change {newest}", cid + CHANGELOG_AGE));
+        }
+    }
+    bad
+}
+
+/// CHANGELOG_MAX_AGE of the non-test build (7 days): trim cid = cid − this.
+const CHANGELOG_AGE: u64 = 7 * 86400;
+
+/// Newest `last_modified_cid` (seconds) among the dumped entries.
+fn newest_change(entries: &str) -> Option<u64> {
+    entries
+        .split("last_modified_cid=")
+        .skip(1)
+        .filter_map(|t| {
+            let tok: String = t.chars().take_while(|c| *c != ';' && *c != '\n').collect();
+            cid_secs(&tok)
+        })
+        .max()
+}
+
+/// Seconds of a rendered cid (`{nanoseconds since the epoch, 32 decimal digits}-{server uuid}`).
+fn cid_secs(tok: &str) -> Option<u64> {
+    let head: String = tok.trim().chars().take_while(|c| c.is_ascii_digit()).collect();
+    head.parse::<u128>().ok().map(|n| (n / 1_000_000_000) as u64)
 }
 
 // ------------------------------------------------------------------------------------------------
@@ -595,10 +709,11 @@ impl Sab {
 // ------------------------------------------------------------------------------------------------
 
 /// configuration observable → the model cell it reads
-const OBS_CELLS: [(&str, &str); 6] = [("schema", "schema"), ("domain", "dInfo"), ("acp", "accesscontrols"), ("oauth2", "oauth2rs"), ("key", "keyProviders"), ("cid", "cid")];
+const OBS_CELLS: [(&str, &str); 7] =
+    [("schema", "schema"), ("domain", "dInfo"), ("badlist", "systemConfig"), ("acp", "accesscontrols"), ("oauth2", "oauth2rs"), ("key", "keyProviders"), ("cid", "cid")];
 /// stored-data observables (entries and index answers): served from the reader's cache snapshots or
 /// from its database snapshot
-const STORED: [&str; 6] = ["e_person", "e_target", "e_new", "e_index", "e_victim", "entries"];
+const STORED: [&str; 11] = ["e_person", "e_target", "e_new", "e_index", "e_victim", "entries", "s_domain", "s_sysconfig", "s_acp", "s_client_base", "s_client_new"];
 const CACHES: [&str; 3] = ["entryCache", "idlCache", "nameCache"];
 
 struct Model {
@@ -820,6 +935,25 @@ impl Ctx {
         }
     }
 
+    /// Oracle 1 on a plain `after` reader (fresh server, cold cache, own database file): the writer
+    /// commits, then one read transaction; the list of loaded-vs-stored disagreements.
+    fn after_mismatch(&self, ops: &[Op]) -> Vec<String> {
+        let path = self.work.with_extension("min.db");
+        copy_db(&self.base, &path);
+        let out = match Srv::boot(&path, ct(1000)) {
+            Err(_) => vec![],
+            Ok(srv) => {
+                if srv.rt.block_on(write_txn(&srv.idms, ops)) == End::CommitOk {
+                    incoherent(&srv.observe()).into_iter().map(|b| format!("`after` reader: {b}")).collect()
+                } else {
+                    vec![]
+                }
+            }
+        };
+        rm_db(&path);
+        out
+    }
+
     /// One case: fresh copy, boot, optional warm-up, reference before, schedule, reference after.
     fn case(&mut self, ops: &[Op], shape: &Shape, warm: bool, rep: &mut Report) {
         let input = json!({"ops": ops.iter().map(|o| o.show()).collect::<Vec<_>>(), "shape": shape.show(), "warm": warm});
@@ -933,7 +1067,60 @@ impl Ctx {
         let nontrivial = stored_changing.len() >= 2 && !cfg_changing.iter().all(|k| k == "cid");
         rep.case(if nontrivial { Some(format!("{}|{}|{}", ops.iter().map(|o| o.show()).collect::<Vec<_>>().join("+"), shape.show(), warm)) } else { None });
 
-        // ---------------- oracle ----------------
+        // ---------------- oracle 1: loaded configuration vs stored entries, inside one transaction ----------------
+        // Demanded of every reader the statement promises one state to without any known exception: the
+        // quiescent references (before the writer began / opened after commit() returned) and the `before`
+        // and `after` readers.  Readers overlapping the commit (pause…, deferred) are judged by oracle 2,
+        // whose two known classes describe exactly how they may mix.
+        if std::env::var("C06_DEBUG").is_ok() {
+            for (w, o) in [("old", v_old), ("new", &v_new), ("first", &run.first)] {
+                eprintln!("--- {w}");
+                for (k, v) in o {
+                    if k != "entries" && k != "schema" && k != "badlist" && k != "s_sysconfig" {
+                        eprintln!("{k} = {v}");
+                    }
+                }
+                eprintln!("newest = {:?}", newest_change(o.get("entries").map(|x| x.as_str()).unwrap_or("")));
+                eprintln!("lm = {:?}", o.get("entries").and_then(|e| e.split("last_modified_cid=").nth(1)).map(|t| t.chars().take(60).collect::<String>()));
+            }
+        }
+        let mut readers: Vec<(&str, &Obs)> = vec![("reference reader before the writer began", v_old), ("reader opened after commit() returned", &v_new)];
+        if matches!(shape, Shape::Before) {
+            readers.push(("reader opened before the writer began, first run", &run.first));
+            readers.push(("reader opened before the writer began, second run (after the commit)", &run.second));
+        }
+        if matches!(shape, Shape::After) {
+            readers.push(("`after` reader, first run", &run.first));
+            readers.push(("`after` reader, second run", &run.second));
+        }
+        let mixed: Vec<String> = readers.iter().flat_map(|(w, o)| incoherent(o).into_iter().map(move |b| format!("{w}: {b}"))).collect();
+        if !mixed.is_empty() {
+            self.violation = true;
+            rep.count("loaded-config-vs-stored-mismatch");
+            let sig = format!("cfg-vs-stored:{}", ops.iter().map(|o| o.show()).collect::<Vec<_>>().join("+"));
+            if !self.recorded.contains(&sig) && self.recorded.len() < 24 {
+                self.recorded.insert(sig);
+                // minimise: the smallest writer for which a plain `after` reader (cold cache) already mixes
+                let (input, mixed) = if !self.after_mismatch(ops).is_empty() {
+                    let min = shrink_list(ops.to_vec(), |c| !c.is_empty() && !self.after_mismatch(c).is_empty());
+                    rep.note(format!("minimised writer: {}", min.iter().map(|o| o.show()).collect::<Vec<_>>().join("+")));
+                    (json!({"ops": min.iter().map(|o| o.show()).collect::<Vec<_>>(), "shape": "after", "warm": false}), self.after_mismatch(&min))
+                } else {
+                    (input.clone(), mixed)
+                };
+                rep.fail(Failure {
+                    kind: "impl-vs-oracle".into(),
+                    class: "loaded-config-differs-from-stored-entries".into(),
+                    input,
+                    expected: "inside one read transaction that does not overlap the commit, every loaded configuration observable (domain display name, badlist / denied names, access decision, OAuth2 clients, key objects, cid) belongs to the same committed state as the stored entries read by that transaction".into(),
+                    observed: mixed.join("; "),
+                });
+            }
+        } else {
+            rep.count("loaded-config-matches-stored");
+        }
+
+        // ---------------- oracle 2: all old or all new ----------------
         let all_old = sides.values().all(|s| *s == "old");
         let all_new = sides.values().all(|s| *s == "new");
         let repeat_ok = run.first == run.second;
@@ -1043,11 +1230,31 @@ async fn write_txn(idms: &IdmServer, ops: &[Op]) -> End {
 fn writer_kinds() -> Vec<Vec<Op>> {
     vec![
         vec![Op::Create(0), Op::Domain(1)],
-        vec![Op::Create(0), Op::Modify(1), Op::Delete, Op::Acp, Op::OAuth2, Op::Domain(1)],
+        // every reload-flagged thing in ONE transaction: system_config, domain, ACP, OAuth2 client (+ key object)
+        vec![Op::Create(0), Op::Modify(1), Op::Delete, Op::Badlist(1), Op::Acp, Op::OAuth2, Op::Domain(1)],
         vec![Op::Modify(1), Op::Create(0), Op::Acp],
         vec![Op::Create(0), Op::Modify(2), Op::OAuth2Del, Op::Domain(3)],
         vec![Op::Create(0), Op::Modify(1)],
     ]
+}
+
+/// Writers that change exactly TWO reload-flagged things (all pairs of system_config badlist, domain
+/// display name, access control profile, OAuth2 client + key object) next to the related-entries pair:
+/// a reload dispatch that serves one flag and skips another shows only when both are set.
+fn pair_kinds() -> Vec<Vec<Op>> {
+    let cfg = [Op::Badlist(2), Op::Domain(2), Op::Acp, Op::OAuth2];
+    let mut v = vec![];
+    for i in 0..cfg.len() {
+        for j in i + 1..cfg.len() {
+            v.push(vec![Op::Create(0), cfg[i].clone(), cfg[j].clone()]);
+            // … and in the other order of the two operations
+            if (i + j) % 2 == 1 {
+                let l = v.len() - 1;
+                v[l].swap(1, 2);
+            }
+        }
+    }
+    v
 }
 
 fn all_shapes() -> Vec<Shape> {
@@ -1099,12 +1306,14 @@ fn main() {
     if !thorough && args.budget <= 1 {
         kinds.truncate(2);
     }
+    let n_full = kinds.len();
+    kinds.extend(pair_kinds());
     // thorough: plus random writers (always with the related-entries pair)
     let extra = args.cases(0, 4);
     for i in 0..extra {
         let mut r = Rng::for_case(args.seed, 100 + i);
         let mut ops = vec![Op::Create(0)];
-        let pool = [Op::Modify(r.range(1, 9)), Op::Delete, Op::Acp, Op::OAuth2, Op::OAuth2Del, Op::Domain(r.range(1, 9)), Op::Schema];
+        let pool = [Op::Modify(r.range(1, 9)), Op::Delete, Op::Acp, Op::OAuth2, Op::OAuth2Del, Op::Domain(r.range(1, 9)), Op::Badlist(r.range(1, 9)), Op::Schema];
         for o in pool {
             if r.chance(1, 2) {
                 ops.push(o);
@@ -1112,12 +1321,36 @@ fn main() {
         }
         kinds.push(ops);
     }
+    // raised budget (a fingerprinted function changed / an obligation broke): writers that set the most
+    // reload flags at once first, and the single-threaded shapes before the pauses
+    let raised = args.budget > 1;
+    if raised {
+        let n_cfg = |k: &Vec<Op>| k.iter().filter(|o| matches!(o, Op::Badlist(_) | Op::Domain(_) | Op::Acp | Op::OAuth2 | Op::OAuth2Del | Op::Schema)).count();
+        kinds.sort_by_key(|k| std::cmp::Reverse(n_cfg(k)));
+    }
     let mut shapes = all_shapes();
     let mut rng = Rng::for_case(args.seed, 7);
-    'all: for ops in &kinds {
+    'all: for (ki, ops) in kinds.iter().enumerate() {
         rng.shuffle(&mut shapes);
+        if raised {
+            shapes.sort_by_key(|s| matches!(s, Shape::Pause(_) | Shape::PauseLate(_)));
+        }
+        // quick: a pair writer runs `after` (cold and warm), `before`, `deferred` and one pause shape
+        let pair_quick = !thorough && args.budget <= 1 && ki >= n_full && ki < n_full + 6;
+        let pick_pause = shapes.iter().find(|s| matches!(s, Shape::Pause(_) | Shape::PauseLate(_))).cloned();
         for shape in &shapes {
             for warm in [false, true] {
+                if pair_quick {
+                    let keep = match shape {
+                        Shape::After => true,
+                        Shape::Before => warm,
+                        Shape::Deferred => !warm,
+                        p => Some(p) == pick_pause.as_ref() && warm == (ki % 2 == 0),
+                    };
+                    if !keep {
+                        continue;
+                    }
+                }
                 // quick: the single-threaded shapes in both cache states, the pauses alternately
                 if !thorough && args.budget <= 1 && matches!(shape, Shape::Pause(_) | Shape::PauseLate(_)) && warm != rng.chance(1, 2) {
                     continue;
